@@ -142,7 +142,11 @@ def run(ctx: Ctx) -> None:
     ctx.ob("C06.R3", ph, "hello verdict raises exactly APIConnectionError (version) and BadNameAPIError (name)", set(by_cls) == {"APIConnectionError", "BadNameAPIError"} and all(len(v) == 1 for v in by_cls.values()), f"{ {k: len(v) for k, v in by_cls.items()} }")
     # version guard
     vconds = [n for n in gp.reachable() if n.kind == "cond" and isinstance(n.ast, ast.Compare) and ("major" in norm(inline(ph, n.ast)))]
-    if len(vconds) == 1 and "APIConnectionError" in by_cls:
+    if "APIConnectionError" in by_cls:
+        # general form: the condition the version raise hangs on, evaluated over (major, minor) pairs with
+        # APIVersion modelled as the ordered pair its dataclass(order=True) comparison uses
+        version_guard_general(ctx, ph, gp, rp, by_cls["APIConnectionError"][0])
+    elif len(vconds) == 1 and "APIConnectionError" in by_cls:
         c = vconds[0]
         t = copy.deepcopy(c.ast)
         full = inline(ph, t.left)
@@ -256,3 +260,101 @@ def _fmt_set(s: set[int]) -> str:
         return "{}"
     xs = sorted(s)
     return f"{xs[0]}..{xs[-1]} ({len(xs)} values)" if xs == list(range(xs[0], xs[-1] + 1)) else str(xs[:12])
+
+
+def version_guard_general(ctx: Ctx, ph: Func, gp, rp: str, raise_node: Node) -> None:
+    # the cond node with a branch that leads straight (no further test) to the version raise
+    cands = []
+    for n in gp.reachable():
+        if n.kind != "cond":
+            continue
+        for l, s_ in n.succ:
+            if l in ("true", "false"):
+                cur = s_
+                hops = 0
+                while cur is not raise_node and cur.kind in ("stmt", "join") and hops < 8 and len([x for x in cur.succ if x[0] != "exc"]) == 1:
+                    cur = [x[1] for x in cur.succ if x[0] != "exc"][0]
+                    hops += 1
+                if cur is raise_node:
+                    cands.append((n, l))
+    if len(cands) != 1:
+        ctx.ob("C06.R2", ph, "version guard located", False, f"{len(cands)} conditions lead straight to the incompatible-version error")
+        return
+    c, bad_label = cands[0]
+    fields_ok = _apiversion_is_ordered_pair(ctx)
+    majors = list(range(0, 301))
+    minors = list(range(0, 13)) + [99, 1000]
+    wrong = []
+    for M in majors:
+        for m in minors:
+            v = _vval(ctx, ph, c.ast, {f"{rp}.api_version_major": M, f"{rp}.api_version_minor": m}, 0)
+            if not isinstance(v, bool):
+                raise AnalysisError(f"cannot evaluate version guard {norm(c.ast)} for version {M}.{m}")
+            rejected = v == (bad_label == "true")
+            if rejected != (M > 2):
+                wrong.append(f"{M}.{m} {'rejected' if rejected else 'accepted'}")
+    tv = truth_table(gp, ["bad"], lambda n: ("bad", bad_label == "true") if n is c else None, [raise_node])
+    ctx.ob("C06.R2", ph, "an incompatible version always raises", tv.get((True,)) == (True, True) and tv.get((False,), (True, True))[0] is False, fmt_table(["bad"], tv))
+    ctx.ob("C06.R2", ph, "version rejected exactly for major > 2 (evaluated over major x minor pairs)", fields_ok and not wrong, f"guard {norm(c.ast)}; wrong verdicts: {wrong[:6]}" + ("" if fields_ok else "; APIVersion is not an ordered (major, minor) dataclass"))
+
+
+def _apiversion_is_ordered_pair(ctx: Ctx) -> bool:
+    ci = ctx.repo.try_cls("APIVersion")
+    if ci is None:
+        return False
+    deco = [norm(d) for d in ci.node.decorator_list]
+    ordered = any("order=True" in d for d in deco)
+    flds = [st.target.id for st in ci.node.body if isinstance(st, ast.AnnAssign) and isinstance(st.target, ast.Name)]
+    return ordered and flds == ["major", "minor"]
+
+
+def _vval(ctx: Ctx, fn: Func, e: ast.expr, env: dict, depth: int):
+    """Evaluate an expression over API versions: APIVersion(a, b) is the pair (a, b)."""
+    if depth > 10 or e is None:
+        return Unknown
+    t = norm(e)
+    if t in env:
+        return env[t]
+    if isinstance(e, ast.Constant):
+        return e.value
+    if isinstance(e, ast.Name):
+        assigns = [n for n in own_nodes(fn.node) if isinstance(n, ast.Assign) and any(isinstance(x, ast.Name) and x.id == e.id for x in n.targets)]
+        if len(assigns) == 1:
+            return _vval(ctx, fn, assigns[0].value, env, depth + 1)
+        tab = ctx.sym.table(fn.module.name).get(e.id)
+        if tab and tab[0] == "assign" and len(tab[1]) == 1 and tab[1][0] is not None:
+            return _vval(ctx, fn, tab[1][0], env, depth + 1)
+        v = ctx.sym.resolve_name(fn.module.name, e.id)
+        return v if isinstance(v, (int, float)) else Unknown
+    if isinstance(e, ast.Call) and norm(e.func).split(".")[-1] == "APIVersion" and len(e.args) == 2 and not e.keywords:
+        a, b = _vval(ctx, fn, e.args[0], env, depth + 1), _vval(ctx, fn, e.args[1], env, depth + 1)
+        return (a, b) if isinstance(a, int) and isinstance(b, int) else Unknown
+    if isinstance(e, ast.Attribute) and e.attr in ("major", "minor"):
+        base = _vval(ctx, fn, e.value, env, depth + 1)
+        if isinstance(base, tuple) and len(base) == 2:
+            return base[0] if e.attr == "major" else base[1]
+        return Unknown
+    if isinstance(e, ast.Tuple):
+        vals = [_vval(ctx, fn, x, env, depth + 1) for x in e.elts]
+        return tuple(vals) if all(isinstance(v, int) for v in vals) else Unknown
+    if isinstance(e, ast.UnaryOp) and isinstance(e.op, ast.Not):
+        v = _vval(ctx, fn, e.operand, env, depth + 1)
+        return (not v) if isinstance(v, bool) else Unknown
+    if isinstance(e, ast.BoolOp):
+        vals = [_vval(ctx, fn, x, env, depth + 1) for x in e.values]
+        if not all(isinstance(v, bool) for v in vals):
+            return Unknown
+        return all(vals) if isinstance(e.op, ast.And) else any(vals)
+    if isinstance(e, ast.Compare) and len(e.ops) == 1:
+        a, b = _vval(ctx, fn, e.left, env, depth + 1), _vval(ctx, fn, e.comparators[0], env, depth + 1)
+        if a is Unknown or b is Unknown or type(a) is not type(b) or isinstance(a, bool):
+            return Unknown
+        op = e.ops[0]
+        table = {ast.Gt: a > b, ast.GtE: a >= b, ast.Lt: a < b, ast.LtE: a <= b, ast.Eq: a == b, ast.NotEq: a != b}
+        return table.get(type(op), Unknown)
+    if isinstance(e, ast.BinOp) and isinstance(e.op, (ast.Add, ast.Sub)):
+        a, b = _vval(ctx, fn, e.left, env, depth + 1), _vval(ctx, fn, e.right, env, depth + 1)
+        if isinstance(a, int) and isinstance(b, int):
+            return a + b if isinstance(e.op, ast.Add) else a - b
+    return Unknown
+
